@@ -6,14 +6,20 @@ open KVerif.L KVerif.K KVerif.KO KVerif.Drv KVerif.Drv.Kan
 
 /-- the key-output table recomputed by the model from the serialised layer actions, for the physical
 keys the harness serialised; compared with the table the real parser built -/
-def tableMismatch (k : KState) : Option String :=
+-- chv2: `add_chordsv2_output_for_key_pos`: after the key's own action, the action of every chord the
+-- key takes part in that is not disabled on the layer
+def rowWithChords (k : KState) (chv2 : Option ChV2Cfg) (li slot : Nat) (a : Action) : List Nat :=
+  let chords := ((chv2.bind (·.get slot)).getD []).filter fun ch => !ch.disabledLayers.contains li
+  chords.foldl (fun o ch => addOutputs k.customs slot ch.action o) (keyOutputs k.customs slot a)
+
+def tableMismatch (k : KState) (chv2 : Option ChV2Cfg := none) : Option String :=
   let layers := k.layout.cfg.layers
   (List.range layers.length).findSome? fun li =>
     let tbl := layers[li]!
     let real := k.keyOutputs[li]?.getD []
     -- every serialised row-0 position
     (tbl.filter (·.1.1 == 0)).findSome? fun (c, a) =>
-      let mine := withOverrides k.overrides (keyOutputs k.customs c.2 a)
+      let mine := withOverrides k.overrides (rowWithChords k chv2 li c.2 a)
       let theirs := ((real.find? (·.1 == c.2)).map (·.2)).getD []
       if mine == theirs then none
       else some s!"layer {li} key {c.2}: parser table {theirs} model {mine}"
@@ -22,18 +28,18 @@ def tableMismatch (k : KState) : Option String :=
 in place of the one the parser built, for every serialised key: the model then behaves as the
 statement requires even when the parser's table is missing an output, and the difference shows as a
 repeat the implementation drops -/
-def withModelTable (k : KState) : KState :=
+def withModelTable (k : KState) (chv2 : Option ChV2Cfg := none) : KState :=
   let layers := k.layout.cfg.layers
   { k with keyOutputs := (List.range layers.length).map fun li =>
       let tbl := layers[li]!
       let real := k.keyOutputs[li]?.getD []
-      let mine := (tbl.filter (·.1.1 == 0)).map fun (c, a) => (c.2, withOverrides k.overrides (keyOutputs k.customs c.2 a))
+      let mine := (tbl.filter (·.1.1 == 0)).map fun (c, a) => (c.2, withOverrides k.overrides (rowWithChords k chv2 li c.2 a))
       mine ++ real.filter fun e => !(mine.any (·.1 == e.1)) }
 
 def modelOut (c : Kan.Case) : String :=
-  let base := Kan.modelOut { c with k := c.k.map withModelTable }
+  let base := Kan.modelOut { c with k := c.k.map (withModelTable · c.chv2) }
   match c.k with
-  | some k => match tableMismatch k with
+  | some k => match tableMismatch k c.chv2 with
     | some why => s!"{base} KEYOUTS-DIFFER {why}"
     | none => base
   | none => base
